@@ -5,6 +5,7 @@
     [pk] is the one oracle: "these 33 bytes are a valid compressed secp256k1 point". *)
 Require Import LdkV.Prim.U64 LdkV.Codec.Combinators LdkV.Codec.Tlv LdkV.Codec.Wire LdkV.Gen.MsgSchemas.
 Require Import LdkV.Proofs.C13Base LdkV.Proofs.C13Tlv LdkV.Proofs.C13Msg LdkV.Proofs.C13.
+Require Import LdkV.Codec.Addr LdkV.Gen.WireLens LdkV.Proofs.C13Addr.
 Open Scope Z_scope.
 
 (** BigSize: round trip for every u64, and canonicity (whatever decodes is the minimal encoding). *)
@@ -96,6 +97,53 @@ Theorem C13_unknown_types : forall pk ty payload, 0 <= ty < 65536 ->
   existsb (fun s => s_type s =? ty) all_schemas = false ->
   wire_dec pk all_schemas (be_enc 2 ty ++ payload) = ROk (WUnknown ty).
 Proof. exact extracted_unknown_type. Qed.
+
+(** CollectionLength (prefix of Vec<u8>, String and the impl_for_vec! collections; shared with C12):
+    round trip for every u64, canonicity, and the form of the encoding: two bytes exactly below
+    0xffff, the ten-byte escape form from 0xffff on (0xffff itself included). *)
+Theorem C13_collection_length_roundtrip : forall n r, 0 <= n < 2 ^ 64 -> cl_dec (cl_enc n ++ r) = ROk (n, r).
+Proof. exact cl_rt. Qed.
+
+Theorem C13_collection_length_canonical : forall b n r, bytes_ok b = true -> cl_dec b = ROk (n, r) ->
+  b = cl_enc n ++ r /\ 0 <= n < 2 ^ 64.
+Proof. exact cl_canon. Qed.
+
+Theorem C13_collection_length_form : forall n, 0 <= n ->
+  (n < 0xFFFF -> cl_enc n = be_enc 2 n) /\
+  (0xFFFF <= n -> cl_enc n = [0xFF; 0xFF] ++ be_enc 8 (n - 0xFFFF)).
+Proof. exact cl_enc_form. Qed.
+
+(** The branch conditions of the model are the ones in the source: [cl_write_short_form] and
+    [cl_read_escape] are the [if] conditions of CollectionLength's write and read, re-extracted by rs2v
+    on every run (Gen/WireLens.v); with the condition as written in the source the escape form still
+    round-trips. *)
+Theorem C13_collection_length_matches_source : forall n r,
+  cl_enc n = (if cl_write_short_form n then be_enc 2 n else be_enc 2 0xFFFF ++ be_enc 8 (n - 0xFFFF)) /\
+  (forall v, cl_read_escape v = (v =? 0xFFFF)) /\
+  (cl_write_short_form n = false -> 0 <= n < 2 ^ 64 -> cl_dec (cl_enc n ++ r) = ROk (n, r)).
+Proof. exact cl_matches_source. Qed.
+
+(** SocketAddress descriptors (all five kinds; hostnames of 0..255 valid characters): round trip, and
+    the GENERATED [SocketAddress::len] (rs2v, Gen/WireLens.v) is the descriptor length without the
+    type byte, does not overflow its Rust integer type ([_safe]: the debug build does not panic),
+    and respects MAX_LEN = 258. *)
+Theorem C13_socket_address_roundtrip : forall a r, sa_dom a = true -> sa_dec (sa_enc a ++ r) = ROk (inl a, r).
+Proof. exact sa_roundtrip. Qed.
+
+Theorem C13_socket_address_len : forall a, sa_dom a = true ->
+  len (sa_enc a) = 1 + socket_address_len (sa_abs a) /\
+  socket_address_len_safe (sa_abs a) = true /\
+  socket_address_len (sa_abs a) <= 258.
+Proof. exact sa_len_correct. Qed.
+
+Example C13_socket_address_example :
+  sa_dom (SA_Host (repeat 97 255) 9735) = true /\
+  socket_address_len (sa_abs (SA_Host (repeat 97 255) 9735)) = 258 /\
+  sa_dec (5 :: 1 :: 32 :: [0; 1]) = RErr "InvalidValue" /\
+  sa_dec [6; 1] = ROk (inr 6, [1]) /\
+  cl_enc 0xFFFE = [0xFF; 0xFE] /\ cl_enc 0xFFFF = [0xFF; 0xFF; 0; 0; 0; 0; 0; 0; 0; 0] /\
+  cl_dec [0xFF; 0xFF; 0xFF; 0xFF; 0xFF; 0xFF; 0xFF; 0xFF; 0; 1] = RErr "InvalidValue".
+Proof. repeat split; vm_compute; reflexivity. Qed.
 
 (** Non-vacuity: a concrete channel_ready with its optional TLV, and a concrete update_add_htlc with
     three of its four optional TLVs, are in the domain and encode to the expected bytes. *)
